@@ -55,6 +55,72 @@ class NeedShape(Exception):
         self.hole = hole
 
 
+class Rerun(Exception):
+    """a decision was added that changes how the input is built: run again with the same decisions"""
+
+
+class KindProxy(str):
+    """the kind of an undecided hole.  `== literal` forks two ways (is / is not that kind) instead of enumerating
+    every kind; anything that needs the actual string (hashing for set/dict membership) falls back to the full
+    refinement of the hole."""
+
+    def __new__(cls, hole):
+        obj = str.__new__(cls, "<undecided>")
+        obj.hole = hole
+        return obj
+
+    def __eq__(self, other):
+        if isinstance(other, KindProxy):
+            raise NeedShape(self.hole)
+        if not isinstance(other, str):
+            return False
+        return kind_test(self.hole, other)
+
+    def __ne__(self, other):
+        return not self.__eq__(other)
+
+    def __hash__(self):
+        raise NeedShape(self.hole)
+
+    def __str__(self):
+        raise NeedShape(self.hole)
+
+    def __format__(self, spec):
+        raise NeedShape(self.hole)
+
+
+def kind_test(h, literal):
+    w = world()
+    if literal in h._excluded:
+        return False
+    groups = {}
+    for alt in alternatives(w, h):
+        g = "constant" if alt[0] in ("const", "named") else (alt[1] if alt[0] == "kind" else None)
+        if g is not None:
+            groups.setdefault(g, []).append(alt)
+    if literal not in groups:
+        return False  # no well-typed expression of that kind can stand here
+    yes = w.choose(("kindis", h.hid, literal), [False, True])
+    if not yes:
+        h._excluded.add(literal)
+        w.trace.append("h%s!=%s" % (h.hid, literal))
+        return False
+    alts = groups[literal]
+    alt = alts[0] if len(alts) == 1 else w.choose(("kindalt", h.hid, literal), alts)
+    w.dec[("shape", h.hid)] = alt
+    _forget_knowledge(w.dec, h.hid)
+    for d in w.new:
+        pass
+    raise Rerun()
+
+
+def _forget_knowledge(dec, hid):
+    """once a hole is refined, what was assumed about it as an opaque expression is moot: the REAL inference of the
+    refined node answers in the re-run"""
+    for k in [k for k in dec if isinstance(k, tuple) and k[0] == "know" and k[1] == "h" + hid]:
+        del dec[k]
+
+
 class Prune(Exception):
     """contradictory hypotheses / alternative not admissible (e.g. constant not in normal form)"""
 
@@ -368,6 +434,7 @@ SIGNSETS = {
     "nonpositive": {"n", "z"},
     "nonnegative": {"z", "p"},
 }
+SIGN_CLASSES = ["nzp", "n", "z", "p", "nz", "zp"]
 KNOWLEDGE = [(frozenset(k), f) for k in ("nzp", "n", "z", "p", "nz", "zp", "np") for f in (False, True)]
 
 
@@ -402,25 +469,44 @@ def _answer_from_knowledge(K, prop):
     return None
 
 
-def _knowledge(w, name, value_thunk):
-    """what sign/finiteness inference `knows` about a node: one fork per node; the answers to all properties are
-    the strongest ones that knowledge supports (each fold of the rules is justified by the facts of the matched
-    properties; the table rows themselves are discharged with minimal hypotheses separately)"""
-    key = ("know", name)
-    if key in w.answers:
-        return w.answers[key]
-    v = value_thunk()
+def _knowledge(w, name, value_thunk, prop):
+    """what sign/finiteness inference `knows` about a node.  Forked lazily and in stages: the sign class (6) at the
+    first sign query, `non-zero` (2) only when zero/nonzero is asked of an otherwise unknown sign, finiteness (2)
+    only when `finite` is asked.  The answers to all properties are the strongest ones that knowledge supports
+    (each fold of the rules is justified by the facts of the matched properties; the table rows themselves are
+    discharged with minimal hypotheses separately)."""
+    st = w.answers.setdefault(("know", name), {})
+    if "v" not in st:
+        st["v"] = value_thunk()
+    v = st["v"]
     if v is None or z3.is_bool(v):
-        w.answers[key] = KNOWLEDGE[0]
-        return KNOWLEDGE[0]
-    i = w.choose(key, list(range(len(KNOWLEDGE))))
-    K = KNOWLEDGE[i]
-    w.answers[key] = K
-    if i != 0:
-        w.hyps.append(_knowledge_formula(K, v, w))
-        w.trace.append("%s~%s%s" % (name, "".join(sorted(K[0])), "f" if K[1] else ""))
+        return (frozenset("nzp"), False)
+
+    def commit(formula, label):
+        w.hyps.append(formula)
+        w.trace.append("%s~%s" % (name, label))
         _check_consistent(w)
-    return K
+
+    if prop == "finite":
+        if "fin" not in st:
+            st["fin"] = w.choose(("know", name, "fin"), [False, True])
+            if st["fin"]:
+                commit(PROP_FORMULA["finite"](v, w), "f")
+        return (frozenset("nzp"), st["fin"])
+    if "sign" not in st:
+        c = w.choose(("know", name, "sign"), SIGN_CLASSES)
+        st["sign"] = frozenset(c)
+        if c != "nzp":
+            commit(_knowledge_formula((st["sign"], False), v, w), c)
+    signs = st["sign"]
+    if prop in ("zero", "nonzero", "one") and signs == frozenset("nzp"):
+        if "nz" not in st:
+            st["nz"] = w.choose(("know", name, "nz"), [False, True])
+            if st["nz"]:
+                commit(PROP_FORMULA["nonzero"](v, w), "np")
+        if st["nz"]:
+            signs = frozenset("np")
+    return (signs, st.get("fin", False))
 
 
 def _contract_answer(w, node, prop):
@@ -433,7 +519,7 @@ def _contract_answer(w, node, prop):
         except Exception:
             return None
 
-    return _answer_from_knowledge(_knowledge(w, nodesig(node), val), prop)
+    return _answer_from_knowledge(_knowledge(w, nodesig(node), val, prop), prop)
 
 
 def _contract_answer_old(w, node, prop):
@@ -481,9 +567,7 @@ def install():
     """shadow the global names of the repository modules that the rewriter / inference code reads"""
     if _PATCHED:
         return
-    import functional_algorithms.expr as _E
-
-    _patch_inference(_E)
+    # inference on refined (real) nodes runs the real code; holes answer by contract (Hole._answer)
     import functional_algorithms.expr as E
     import functional_algorithms.rewrite as R
     import functional_algorithms.utils as U
@@ -521,9 +605,11 @@ SHADOW_DOC = [
 # ---------------------------------------------------------------------------------------------
 class World:
     cur = None
+    defaults = {}  # key -> default (first) alternative: entries equal to it are equivalent to absent entries
 
     def __init__(self, decisions, mode, universe, consts_named=(), allow_alias=True):
         self.dec = dict(decisions)  # semantic key -> choice
+        self.defaulted = set()
         self.new = []  # alternative decision dicts discovered during this run
         self.mode = mode  # "real" | "fp32" | "fp64py" | "fp16"
         self.universe = universe  # dict type class -> list of kinds
@@ -542,12 +628,15 @@ class World:
         """alternatives: list of hashable labels"""
         if key in self.dec:
             return self.dec[key]
+        # the default (first) alternative is NOT recorded: a decision dict holds only non-default choices, so two
+        # dicts that differ in dead default decisions are the same dict (no duplicate paths)
         first = alternatives[0]
         for alt in alternatives[1:]:
             d = dict(self.dec)
             d[key] = alt
             self.new.append(d)
         self.dec[key] = first
+        World.defaults[key] = first
         return first
 
     # ---- typing of the pass
@@ -617,13 +706,20 @@ def hole_class():
             if not isinstance(o, ForkKey):
                 # against a concrete key component: either order
                 w = world()
-                return w.choose(("order", self.hid, repr(o)[:40]), ["lt", "gt"])
+                c = w.choose(("order", self.hid, repr(o)[:40]), ["lt", "gt"])
+                t = "key(h%s)%s%s" % (self.hid, "<" if c == "lt" else ">", repr(o)[:24])
+                if t not in w.trace:
+                    w.trace.append(t)
+                return c
             a, b = self.hid, o.hid
             if a == b:
                 return "eq"
             w = world()
             lo, hi = builtins.min(a, b), builtins.max(a, b)
+            first = True
             c = w.choose(("order", lo, hi), ["lt", "gt"])  # lo < hi or lo > hi
+            if first or ("key(h%s)%skey(h%s)" % (lo, "<" if c == "lt" else ">", hi)) not in w.trace:
+                w.trace.append("key(h%s)%skey(h%s)" % (lo, "<" if c == "lt" else ">", hi))
             return c if a == lo else {"lt": "gt", "gt": "lt"}[c]
 
         def __lt__(self, o):
@@ -649,6 +745,7 @@ def hole_class():
             obj.ty = ty
             obj.props = {}
             obj._state = "undecided"
+            obj._excluded = set()
             obj._answers = {}
             obj._Expr__serialize_id = 10**6 + obj.num
             obj._Expr__serialized = ("hole", ForkKey(obj.hid))
@@ -660,7 +757,7 @@ def hole_class():
         def kind(self):
             if self._state == "opaque":
                 return "opaque"
-            raise NeedShape(self)
+            return KindProxy(self)
 
         @property
         def operands(self):
@@ -706,7 +803,7 @@ def hole_class():
                 # asking an inference question about a hole decides nothing about its shape: the answers of an
                 # arbitrary sub-expression are any sound triple - exactly what the fork below enumerates
                 pass
-            return _answer_from_knowledge(_knowledge(w, "h" + self.hid, lambda: w.value_var(self)), prop)
+            return _answer_from_knowledge(_knowledge(w, "h" + self.hid, lambda: w.value_var(self), prop), prop)
 
         def rewrite(self, modifier, *a, **kw):
             raise Unsupported("Hole.rewrite outside the traversal contract")
@@ -718,7 +815,7 @@ def hole_class():
 
         def getter(self, prop=prop):
             if self.ty == "B":
-                raise Unsupported("sign inference on a boolean hole")
+                return None  # the real inference has no case for boolean-valued kinds: it answers None
             return self._answer(prop)
 
         setattr(Hole, "_is_" + prop, property(getter))
@@ -901,7 +998,11 @@ class PathOutcome:
         self.w, self.inp, self.out, self.exc, self.eng = w, inp, out, exc, eng
 
     def sig(self):
-        return " ".join(self.w.trace) or "-"
+        t = " ".join(self.w.trace) or "-"
+        d = getattr(self.eng, "decisions", None)
+        if d:
+            t += " #" + "".join("T" if x else "F" for x in d)  # forks on symbolic payload comparisons
+        return t
 
 
 def explore(build_and_run, mode, universe, consts_named=(), max_paths=400000, allow_alias=True, seeds=None, frontier=None):
@@ -913,6 +1014,15 @@ def explore(build_and_run, mode, universe, consts_named=(), max_paths=400000, al
     install()
     work = [dict(d) for d in seeds] if seeds is not None else [{}]
     explore.open = []
+    seen = set()
+
+    def push(d):
+        key = frozenset((k, v if not isinstance(v, list) else tuple(v)) for k, v in d.items() if not (k in World.defaults and World.defaults[k] == v))
+        if key in seen:
+            return
+        seen.add(key)
+        work.append(d)
+
     n = 0
     while work:
         if frontier is not None and len(work) >= frontier:
@@ -937,13 +1047,24 @@ def explore(build_and_run, mode, universe, consts_named=(), max_paths=400000, al
         except NeedShape as ns:
             h = ns.hole
             for alt in alternatives(w, h):
+                g = "constant" if alt[0] in ("const", "named") else (alt[1] if alt[0] == "kind" else None)
+                if g is not None and g in h._excluded:
+                    continue
                 d = dict(w.dec)
                 d[("shape", h.hid)] = alt
-                work.append(d)
-            work.extend(w.new)
+                _forget_knowledge(d, h.hid)
+                push(d)
+            for d in w.new:
+                push(d)
+            continue
+        except Rerun:
+            push(dict(w.dec))
+            for d in w.new:
+                push(d)
             continue
         except (Prune, symrun.Infeasible):
-            work.extend(w.new)
+            for d in w.new:
+                push(d)
             continue
         except Unsupported:
             raise
@@ -954,14 +1075,26 @@ def explore(build_and_run, mode, universe, consts_named=(), max_paths=400000, al
         finally:
             World.cur = None
             symrun.Engine.cur = None
-        work.extend(w.new)
+        for d in w.new:
+            push(d)
         # forks made by symbolic payload comparisons (symrun engine): re-run with the decision prefix
         for pend in e.pending:
             d = dict(w.dec)
             d["__sym__"] = tuple(pend)
-            work.append(d)
+            push(d)
         w.sym_pc = list(e.pc)
         yield PathOutcome(w, inp, out, exc, e)
+
+
+PROP_ONLY_WORDS = {"nonnegative", "nonpositive", "finite", "nonzero"}
+
+
+def _flat_strings(c, out):
+    if isinstance(c, str):
+        out.append(c)
+    elif isinstance(c, (frozenset, tuple, list)):
+        for x in c:
+            _flat_strings(x, out)
 
 
 def _code_consts(code, known, found):
@@ -969,8 +1102,12 @@ def _code_consts(code, known, found):
         if isinstance(c, str) and c in known:
             found.add(c)
         elif isinstance(c, (frozenset, tuple)):
-            for x in c:
-                if isinstance(x, str) and x in known:
+            strs = []
+            _flat_strings(c, strs)
+            if PROP_ONLY_WORDS & set(strs):
+                continue  # a container of inference PROPERTY names ("positive", "negative" ... are also kind names)
+            for x in strs:
+                if x in known:
                     found.add(x)
         elif isinstance(c, types.CodeType):
             _code_consts(c, known, found)
